@@ -1,0 +1,36 @@
+//go:build verif
+
+package kgo
+
+// Verification contracts (comments only), read by /verif/govc. Compiled only with -tags verif; no code.
+
+// ---- C06 (continued): the next-offset rule of processRecordBatch ----
+// The deferred closure that advances the fetch position past a batch (KAFKA-5443: a compacted batch keeps its
+// last offset even when its last records are gone). The position moves to lastOffset+1 only when every record the
+// batch claims was decoded (a truncated batch never advances it) and only forwards; nothing else is written.
+// numRecords, krecords, o, nextAskOffset are the captured variables (by reference).
+//@ func (_ *ProcessFetchPartitionOpts) processRecordBatch$4()
+//@   prop C06
+//@   nopanic
+//@   modifies (*o).Offset
+//@   ensures [advance-iff-complete] (*o).Offset == ite(*numRecords == len(*krecords) && old((*o).Offset) < *nextAskOffset, *nextAskOffset, old((*o).Offset))
+//@   ensures [forward-only] (*o).Offset >= old((*o).Offset)
+
+// In processRecordBatch itself: the offset the closure above may advance to is exactly one past the batch's last
+// offset as stated by its header (first offset + last offset delta, read on entry), and the record count it
+// compares against is the count the header claims (clamped to the number of record bytes, never raised).
+//@ func (o *ProcessFetchPartitionOpts) processRecordBatch(fp *FetchPartition, batch *kmsg.RecordBatch, aborter aborter, decompressor Decompressor) (nrecs int, nbytes int)
+//@   prop C06
+//@   site store nextAskOffset#0 assert [kafka-5443] val == old(batch.FirstOffset) + int64(old(batch.LastOffsetDelta)) + 1
+//@   site store numRecords#0 assert [claimed-count] val == int(batch.NumRecords)
+//@   site store numRecords#1 assert [clamped-down] val < int(batch.NumRecords) && val >= 1
+//   the slab handed to the record reader has exactly the claimed (clamped) number of slots, and what the deferred
+//   closure later compares against is what the reader returned
+//@   site call readRawRecordsInto#0 assert [claimed-slab] len(arg0) == numRecords
+//@   site store krecords#1 assert [decoded-records] val == $readRawRecordsInto0_0
+
+// (allocation size is not bounded here: n is only known to be at most the number of record bytes)
+//@ func ensureLen(s S, n int) (r S)
+//@   prop C06
+//@   requires n >= 0
+//@   ensures len(r) == n
